@@ -42,9 +42,13 @@ def run_all():
             continue
         try:
             files = m.translate()
-        except Exception:
-            if pid in claimed or pid == CURRENT.get("prop"):
+        except Exception as ex:
+            # a translator that no longer recognises the source only concerns its own property:
+            # it fails that property's check (below) and must not disturb the others
+            cur = CURRENT.get("prop")
+            if pid == cur or (cur is None and pid in claimed and not os.environ.get("VERIF_XLATE_TOLERANT")):
                 raise
+            log += "xlate: translator of %s failed (%r) - ignored for %s\n" % (pid, ex, cur)
             continue
         for rel, txt in files.items():
             p = os.path.join(common.COQ, "theories", rel)
